@@ -78,6 +78,17 @@ class HeapOps:
         for name, r in (("linebreak", 1), ("empty_line", 2), ("comma", 3)):
             p.add_axiom(TAG(I(r)) == self.S.CLASSES["sentinel"])
         p.add_axiom(TAG(I(0)) == self.S.CLASSES["NoneType"])
+        if getattr(self.ctx.contract, "entry_closure", False):
+            # closed entry heap (assumption, listed in the evidence): objects that exist at entry only refer to objects that exist at entry
+            r = z3.Const("r!ecl", z3.IntSort())
+            j = z3.Const("j!ecl", z3.IntSort())
+            for f, kind in self.S.FIELDS.items():
+                if kind == "ref":
+                    a = p.heap[f]
+                    p.add_axiom(z3.ForAll([r], z3.Implies(z3.And(r >= 0, r < alloc), z3.And(a[r] >= 0, a[r] < alloc)), patterns=[a[r]]))
+            E, L = p.heap["$elem"], p.heap["$len"]
+            p.add_axiom(z3.ForAll([r, j], z3.Implies(z3.And(r >= 0, r < alloc, j >= 0, j < L[r]), z3.And(E[r][j] >= 0, E[r][j] < alloc)),
+                                  patterns=[E[r][j]]))
 
     def assume_wellformed_entry(self, env):
         pass
@@ -107,12 +118,12 @@ class HeapOps:
         kind = self.S.FIELDS[field]
         if kind != "ref":
             return
-        p.assume(z3.And(val_t >= 0, val_t < self.h["$alloc"]), check=False)
+        p.assume(z3.And(val_t >= 0, val_t < self.h["$alloc"]), check=False, trigger=val_t)
         if field in self.S.LIST_FIELDS:
             cls = self.S.LIST_FIELDS[field]
-            p.assume(z3.And(val_t > 3, self.tag_in(val_t, cls), self.h["$len"][val_t] >= 0), check=False)
+            p.assume(z3.And(val_t > 3, self.tag_in(val_t, cls), self.h["$len"][val_t] >= 0), check=False, trigger=val_t)
         elif field in self.S.OBJECT_FIELDS:
-            p.assume(z3.And(val_t > 3, self.tag_in(val_t, self.S.OBJECT_FIELDS[field])), check=False)
+            p.assume(z3.And(val_t > 3, self.tag_in(val_t, self.S.OBJECT_FIELDS[field])), check=False, trigger=val_t)
 
     def is_list_tag(self, t):
         return self.tag_in(t, "list")
@@ -193,7 +204,26 @@ class HeapOps:
 
     def check_write(self, ref_t, field, node):
         """Frame obligation: the written location is in `modifies` or the object is fresh."""
-        if self.ev.pure or "*" in (self.ctx.contract.modifies or []):
+        if self.ev.pure:
+            return
+        # loop frames: inside a loop body every write must lie in the loop's own `modifies` (that is what was havocked
+        # at the loop head) or hit an object allocated after the loop head
+        for k, lf in enumerate(getattr(self.ev, "loop_frames", [])):
+            if lf["any"]:
+                continue
+            ok = [ref_t >= lf["alloc"]]
+            if lf["entry_lists"] and field == "$list":
+                ok.append(z3.And(ref_t >= 0, ref_t < self.path.alloc0))
+            for (r, f) in lf["locs"]:
+                if f == field or f == "*":
+                    ok.append(ref_t == r)
+            # deferred: it only matters on paths that come back to the loop head (a write followed by return / break /
+            # raise never meets the havocked state again); stmt.py releases the pending obligations at the back edge
+            before = len(self.ctx.obligations)
+            self.ctx.oblige(self.path, "frame", f"L{getattr(node, 'lineno', 0)}:write .{field} inside loop {lf['tag']}", z3.Or(*ok), node)
+            lf.setdefault("pending", []).extend(self.ctx.obligations[before:])
+            del self.ctx.obligations[before:]
+        if "*" in (self.ctx.contract.modifies or []):
             return
         allowed = [ref_t >= self.path.alloc0]
         for (r, f) in self.frame_locations():
@@ -309,8 +339,8 @@ class HeapOps:
 
     def elem_read(self, l, idx_t):
         t = self.h["$elem"][l.t][idx_t]
-        self.path.assume(z3.And(t >= 0, t < self.h["$alloc"]), check=False)
-        return VRef(t, None)
+        self.path.assume(z3.And(t >= 0, t < self.h["$alloc"]), check=False, trigger=t)
+        return VRef(t, getattr(l, "elem", None))
 
     def subscript(self, base: VRef, idx, node=None):
         idx = self.ev.lift(idx)
@@ -351,7 +381,7 @@ class HeapOps:
     def delete_at(self, l, idx_t, node):
         """del l[i]: elements after i shift left by one."""
         n = self.llen(l)
-        old = self.h["$elem"][l.t]
+        old = self.patternable(self.h["$elem"][l.t])
         new = self.fresh_elems("del")
         j = z3.Const("j!del", z3.IntSort())
         self.path.assume(z3.ForAll([j], z3.And(z3.Implies(z3.And(j >= 0, j < idx_t), new[j] == old[j]),
@@ -396,6 +426,7 @@ class HeapOps:
         r = self.alloc("list")
         self.h["$elem"] = z3.Store(self.h["$elem"], r.t, self.h["$elem"][l.t])
         self.h["$len"] = z3.Store(self.h["$len"], r.t, self.llen(l))
+        r.elem = getattr(l, "elem", None)
         return r
 
     def list_concat(self, a, b):
@@ -422,6 +453,7 @@ class HeapOps:
         self.path.assume(z3.ForAll([j], z3.Implies(z3.And(j >= 0, j < ln), new[j] == old[j + a]), patterns=[new[j]]), check=False)
         self.h["$elem"] = z3.Store(self.h["$elem"], r.t, new)
         self.h["$len"] = z3.Store(self.h["$len"], r.t, ln)
+        r.elem = getattr(base, "elem", None)
         return r
 
     def iter_source(self, it: VRef, node):
@@ -432,11 +464,34 @@ class HeapOps:
     def call_method(self, recv: VRef, name, args, kwargs, node, env):
         if name in ("append", "extend", "remove", "pop", "insert", "copy", "index", "clear") and (
                 recv.cls in ("list", "Scope") or recv.cls is None and self.path.entails_quick(self.is_list_tag(recv.t))):
+            self.site_asserts(node, env, args)
             return self.list_method(recv, name, args, node)
         if name == "get" and recv.cls in ("dict", "ScopeLayer", None):
             return self.dict_get(recv, self.ev.lift(args[0]), node, default=args[1] if len(args) > 1 else VNone(), soft=True)
         if name.startswith("__") or True:
             return self.dunder(recv, name, args, kwargs, node, env)
+
+    def patternable(self, term):
+        """A constant equal to `term` (terms containing ite cannot be used in E-matching patterns)."""
+        c = self.path.fresh("arr", term.sort())
+        self.path.assume(c == term, check=False)
+        return c
+
+    def site_asserts(self, node, env, args=()):
+        """call_asserts for a list-method call (`xs.remove(y)`): clauses over the caller's variables and arg0, arg1."""
+        if self.ev.pure or node is None or not isinstance(node, ast.Call):
+            return
+        key = ast.unparse(node.func)
+        clauses = self.ev.site_asserts(key, node)
+        if not clauses:
+            return
+        sub = self.ev.pure_eval()
+        aenv = self.ev.E.Env(parent=env)
+        for i, a in enumerate(args):
+            aenv.vars[f"arg{i}"] = self.ev.lift(a)
+        for cl in clauses:
+            t = sub.truth(sub.ev(ast.parse(cl, mode="eval").body, aenv))
+            self.ctx.oblige(self.path, "assert@callsite", f"{key}: {cl} @L{getattr(node, 'lineno', 0)}", t, node)
 
     def list_method(self, l, name, args, node):
         args = [self.ev.lift(a) for a in args]
@@ -490,7 +545,7 @@ class HeapOps:
             item = self.as_ref(args[0], node)
             k = self.path.fresh("rm", z3.IntSort())
             j = z3.Const("j!rm", z3.IntSort())
-            e = self.h["$elem"][l.t]
+            e = self.patternable(self.h["$elem"][l.t])
             self.path.add_axiom(z3.Implies(e[k] == item.t, PYEQ(e[k], item.t)))
             found = z3.And(k >= 0, k < self.llen(l), PYEQ(e[k], item.t),
                            z3.ForAll([j], z3.Implies(z3.And(j >= 0, j < k), z3.Not(PYEQ(e[j], item.t))), patterns=[e[j]]))
@@ -711,13 +766,48 @@ class HeapOps:
             na = self.path.fresh(tagname + ".alloc", z3.IntSort())
             self.path.assume(na >= self.h["$alloc"], check=False)
             self.h["$alloc"] = na
+        self.closure_of_havocked(locs)
+
+    def loop_frame(self, lc, env, tag):
+        """Descriptor of what a loop may write, evaluated at the loop head (before the havoc)."""
+        self.init_path()
+        mods = list(lc.modifies or [])
+        plain = [m for m in mods if m not in ("*", "<entry-lists>[]")]
+        return dict(tag=tag, any="*" in mods, entry_lists="<entry-lists>[]" in mods, locs=self.eval_locations(plain, env, None),
+                    alloc=self.h["$alloc"])
 
     def havoc_for_loop(self, lc, env, tag):
         if not self.path.heap:
             return
         if not lc.modifies:
             return
-        locs = self.eval_locations(lc.modifies, env, None)
+        if "*" in lc.modifies:
+            for f in list(self.h):
+                if f != "$alloc":
+                    self.h[f] = self.path.fresh(f"loop{tag}." + f, self.h[f].sort())
+            na = self.path.fresh(f"loop{tag}.alloc", z3.IntSort())
+            self.path.assume(na >= self.h["$alloc"], check=False)
+            self.h["$alloc"] = na
+            return
+        if "<entry-lists>[]" in lc.modifies:
+            # the loop only changes the content of lists that already existed when the function was entered:
+            # every field, and every list allocated in this call (local lists), is untouched
+            E0, L0 = self.h["$elem"], self.h["$len"]
+            E1 = self.path.fresh(f"loop{tag}.elem", E0.sort())
+            L1 = self.path.fresh(f"loop{tag}.len", L0.sort())
+            l = z3.Const("l!lfr", z3.IntSort())
+            a0 = self.path.alloc0
+            self.path.add_axiom(z3.ForAll([l], z3.Implies(l >= a0, E1[l] == E0[l]), patterns=[E1[l]]))
+            self.path.add_axiom(z3.ForAll([l], z3.And(z3.Implies(l >= a0, L1[l] == L0[l]), L1[l] >= 0), patterns=[L1[l]]))
+            self.h["$elem"], self.h["$len"] = E1, L1
+            j = z3.Const("j!lfr", z3.IntSort())
+            self.path.add_axiom(z3.ForAll([l, j], z3.Implies(z3.And(j >= 0, j < L1[l]), z3.And(E1[l][j] >= 0, E1[l][j] < self.h["$alloc"])),
+                                          patterns=[E1[l][j]]))
+            rest = [m for m in lc.modifies if m != "<entry-lists>[]"]
+            if not rest:
+                return
+            lc = type(lc)(invariant=lc.invariant, modifies=rest, decreases=getattr(lc, "decreases", None)) if False else lc
+        locs = self.eval_locations([m for m in lc.modifies if m != "<entry-lists>[]"], env, None)
         for r, f in locs:
             if f == "$list":
                 self.h["$elem"] = z3.Store(self.h["$elem"], r, self.path.fresh(f"loop{tag}.elem", ELEM_SORT))
@@ -729,6 +819,15 @@ class HeapOps:
         na = self.path.fresh(f"loop{tag}.alloc", z3.IntSort())
         self.path.assume(na >= self.h["$alloc"], check=False)
         self.h["$alloc"] = na
+        self.closure_of_havocked(locs)
+
+    def closure_of_havocked(self, locs):
+        """Heap closure for lists whose content was havocked: whatever they hold now was allocated before now."""
+        j = z3.Const("j!hcl", z3.IntSort())
+        for r, f in locs:
+            if f == "$list":
+                E, n = self.h["$elem"][r], self.h["$len"][r]
+                self.path.add_axiom(z3.ForAll([j], z3.Implies(z3.And(j >= 0, j < n), z3.And(E[j] >= 0, E[j] < self.h["$alloc"])), patterns=[E[j]]))
 
     def check_frame_at_exit(self, contract, penv, fn, exceptional=None):
         pass
